@@ -480,6 +480,18 @@ impl ReaderExec {
                         b
                     }
                 };
+                // A caller may also DRAIN the record it was handed (it gets a `&mut OwningIovec`):
+                // every other record is consumed through the consumer view, half of it or all of
+                // it, before the next call.  The reader clears and reuses that iovec, so nothing of
+                // this may leak into later records (sizes seen by the judge, ranges, contents).
+                let k = self.results.len();
+                if k % 2 == 1 && !bytes.is_empty() {
+                    let n = if k % 4 == 1 { bytes.len() } else { (bytes.len() + 1) / 2 };
+                    let drained = iov.consumer().advance_slices(n);
+                    if drained != n {
+                        so.violations.push(format!("C06 draining the returned record: advance_slices({}) removed {}", n, drained));
+                    }
+                }
                 (Some(bytes), range.start, range.end, false)
             }
             Ok(None) => (None, 0, 0, false),
